@@ -8,6 +8,7 @@ astropy, baseband) is never traced: it runs atomically between crash points.
 
 import os
 import sys
+import threading
 
 from . import core
 
@@ -28,41 +29,29 @@ KINDS = {"interrupt": SimInterrupt, "memory": SimMemoryError}
 
 
 class Injector:
-    def __init__(self, prefix=None, opcodes=False):
-        self.prefix = prefix or os.path.join(os.path.realpath(core.REPO), "pulsarbat") + os.sep
-        self.opcodes = opcodes
+    """Counts the line events of pulsarbat/ code executed by fn() and raises the
+    chosen exception at the k-th one. Uses sys.monitoring LINE events (see
+    linemon.py for why not sys.settrace)."""
+
+    def __init__(self, opcodes=False):
+        from . import linemon
+        self.mon = linemon.get_monitor("crash", 3, None)
         self.count = 0
         self.target = -1
         self.exc = None
         self.site = None
         self.fired = False
-        self._fn_cache = {}
+        self.thread = None
 
-    def _is_ours(self, code):
-        r = self._fn_cache.get(code)
-        if r is None:
-            fn = code.co_filename
-            r = os.path.realpath(fn).startswith(self.prefix) if not fn.startswith("<") else False
-            self._fn_cache[code] = r
-        return r
-
-    def _glob(self, frame, event, arg):
-        if event == "call" and self._is_ours(frame.f_code):
-            if self.opcodes:
-                frame.f_trace_opcodes = True
-            return self._local
-        return None
-
-    def _local(self, frame, event, arg):
-        if event == ("opcode" if self.opcodes else "line"):
-            k = self.count
-            self.count = k + 1
-            if k == self.target:
-                self.fired = True
-                self.site = (os.path.basename(frame.f_code.co_filename), frame.f_code.co_name,
-                             frame.f_lineno)
-                raise self.exc(f"injected at crash point {k}")
-        return self._local
+    def _cb(self, code, line):
+        if threading.current_thread() is not self.thread:
+            return
+        k = self.count
+        self.count = k + 1
+        if k == self.target:
+            self.fired = True
+            self.site = (os.path.basename(code.co_filename), code.co_name, line)
+            raise self.exc(f"injected at crash point {k}")
 
     def run(self, fn, target=-1, exc=None):
         """Run fn() with the k-th crash point raising `exc` (target<0: only count).
@@ -72,8 +61,8 @@ class Injector:
         self.exc = exc
         self.site = None
         self.fired = False
-        old = sys.gettrace()
-        sys.settrace(self._glob)
+        self.thread = threading.current_thread()
+        self.mon.callback = self._cb
         try:
             try:
                 v = fn()
@@ -83,4 +72,4 @@ class Injector:
                     raise
                 return "raise", e
         finally:
-            sys.settrace(old)
+            self.mon.callback = None
